@@ -10,6 +10,16 @@ pub fn run(cases_path: &str, out_path: &str) {
     for c in &cases {
         let mut h = http::HeaderMap::new();
         let mut skipped = false;
+        // an earlier call on this thread with another value (its answer is not recorded): the value is
+        // dropped before the one under test is built, so that the allocator may hand out the same
+        // buffer again -- a decision must depend on the bytes of the header, not on where they live
+        if let Some(v) = c.get("prev").filter(|v| !v.is_null()) {
+            if let Ok(hv) = http::HeaderValue::from_bytes(&value_bytes(v)) {
+                h.insert("accept-encoding", hv);
+                let _ = catch(|| http_serve::should_gzip(&h));
+                h.clear();
+            }
+        }
         if let Some(v) = c.get("hdr").filter(|v| !v.is_null()) {
             match http::HeaderValue::from_bytes(&value_bytes(v)) {
                 Ok(hv) => {
